@@ -5,6 +5,16 @@ package main
 // attach_cmd.go — C08/C09: a committed stand-alone container is attached to a parent (where it is
 // inlined) under different cache schedules; the final ledger must be the same for every schedule and
 // must hold exactly the slabs reachable from the parent (the old stand-alone register is deleted).
+//
+// Schedules 4 and 5 inject one transient fault into the SlabStorage.Remove issued while the child is
+// being inlined.  The attach fails; BEFORE anything else touches the child, every slab the storage
+// holds (write set, read cache) and the child's root slab must satisfy the size equation of the codec
+// checks (reported size == bytes written - extra data sections, a slab decoded from those bytes
+// reports the same size), the child must still be stand-alone with its content and the parent must
+// not show it.  Schedule 4 then retries the attach (must succeed, final ledger as without fault);
+// schedule 5 gives up: the child stays a second root, is optionally mutated, and after commit both
+// roots must be in the ledger with their content (C06: what is metered/committed for the child is
+// what it reports).
 
 import (
 	"fmt"
@@ -33,7 +43,7 @@ func (f *flakyStorage) Remove(id atree.SlabID) error {
 
 func cmdAttach(a Args) {
 	rep := NewReport(a.Prop, a.Seed)
-	rep.Rule = "a small stand-alone array or map (0..6 scalars) is committed as its own slab; then, under schedule {keep cache, drop cache, drop cache + read it once, reopen by id in the same storage}, it is appended/set into a parent array or map (it becomes inlined), optionally mutated through its handle, and everything is committed; oracles: the registers in the ledger are exactly the slabs reachable from the parent (health check with one root on a fresh fully loaded storage), content of parent and child after reopen, and byte-identical ledgers across the four schedules of the same case. non-trivial = schedule evicts the child's slab from the read cache before the attachment"
+	rep.Rule = "a small stand-alone array or map (0..6 scalars) is committed as its own slab; then, under schedule {keep cache, drop cache, drop cache + read it once, reopen by id in the same storage}, it is appended/set into a parent array or map (it becomes inlined), optionally mutated through its handle, and everything is committed; oracles: the registers in the ledger are exactly the slabs reachable from the parent (health check with one root on a fresh fully loaded storage), content of parent and child after reopen, and byte-identical ledgers across the schedules of the same case. Schedules 4/5: the SlabStorage.Remove issued while the child is inlined fails once: right after the failed attach every slab in write set / read cache and the child's root must satisfy the size equation (reported == written - extra sections, decoded size equal), child still stand-alone with its content, parent without trace; 4: retry succeeds, final ledger as without fault; 5: the client gives up, child stays a second root, metered size of the write set == bytes written, both roots committed with their content. non-trivial = schedule evicts the child's slab from the read cache before the attachment"
 	rng := NewRng(a.Seed)
 	defer atree.VerifSetThreshold(1024)
 	n := a.N
@@ -57,7 +67,7 @@ func cmdAttach(a Args) {
 			vals[i] = uint64(hr.Intn(70000))
 		}
 		var ledgers []*LogBase
-		for sched := 0; sched < 5; sched++ {
+		for sched := 0; sched < 6; sched++ {
 			failed := false
 			fail := func(what, detail string) {
 				if !failed {
@@ -113,8 +123,40 @@ func cmdAttach(a Args) {
 					must(err)
 					pst.DropCache()
 					rep.Distinct(fmt.Sprintf("%s-%d", tag, sched))
-				case 4:
+				case 4, 5:
 					fst.failRemove = true // the Remove issued while the child is inlined fails once
+				}
+				attached := true
+				// observe: what must hold right after the failed attach, before the child is touched again
+				observe := func(perr error) bool {
+					rep.Event("attach_failed_once")
+					if perr == nil {
+						return true
+					}
+					var ee *atree.ExternalError
+					if !asErr(perr, &ee) {
+						rep.Event("failed_attach_error_not_external")
+					}
+					var roots []atree.Slab
+					switch c := child.(type) {
+					case *atree.Array:
+						if c.Inlined() || c.Count() != uint64(len(vals)) || c.SlabID() != childID {
+							fail("C18: a failed attach changed the stand-alone child", fmt.Sprintf("inlined=%v count=%d id=%s", c.Inlined(), c.Count(), c.SlabID()))
+							return false
+						}
+						roots = append(roots, atree.VerifArrayRoot(c))
+					case *atree.OrderedMap:
+						if c.Inlined() || c.Count() != uint64(len(vals)) || c.SlabID() != childID {
+							fail("C18: a failed attach changed the stand-alone child", fmt.Sprintf("inlined=%v count=%d id=%s", c.Inlined(), c.Count(), c.SlabID()))
+							return false
+						}
+						roots = append(roots, atree.VerifMapRoot(c))
+					}
+					if what, detail := nfSizeCheckStorage(pst, roots); what != "" {
+						fail(what, "after the failed attach ("+perr.Error()+"): "+detail)
+						return false
+					}
+					return true
 				}
 				var parr *atree.Array
 				var pmap *atree.OrderedMap
@@ -126,18 +168,44 @@ func cmdAttach(a Args) {
 					must(err)
 					_, err = pmap.Set(testutils.CompareValue, testutils.GetHashInput, testutils.Uint64Value(2), child)
 					if err != nil && fst.fired {
-						rep.Event("attach_failed_once_then_retried")
-						_, err = pmap.Set(testutils.CompareValue, testutils.GetHashInput, testutils.Uint64Value(2), child)
+						if !observe(err) {
+							return
+						}
+						if pmap.Count() != 1 {
+							fail("C18: a failed attach left a trace in the parent map", fmt.Sprintf("count %d", pmap.Count()))
+							return
+						}
+						if sched == 4 {
+							rep.Event("attach_failed_once_then_retried")
+							_, err = pmap.Set(testutils.CompareValue, testutils.GetHashInput, testutils.Uint64Value(2), child)
+						} else {
+							attached, err = false, nil
+						}
 					}
 					must(err)
+					if err := atree.VerifyMap(pmap, addr, testutils.NewSimpleTypeInfo(50), testutils.CompareTypeInfo, testutils.GetHashInput, true); err != nil {
+						fail("C06: after a transient storage fault the parent map's size bookkeeping is wrong", err.Error())
+						return
+					}
 				} else {
 					parr, err = atree.NewArray(st, addr, testutils.NewSimpleTypeInfo(40))
 					must(err)
 					must(parr.Append(testutils.Uint64Value(5)))
 					err = parr.Append(child)
 					if err != nil && fst.fired {
-						rep.Event("attach_failed_once_then_retried")
-						err = parr.Append(child)
+						if !observe(err) {
+							return
+						}
+						if parr.Count() != 1 {
+							fail("C18: a failed attach left a trace in the parent array", fmt.Sprintf("count %d", parr.Count()))
+							return
+						}
+						if sched == 4 {
+							rep.Event("attach_failed_once_then_retried")
+							err = parr.Append(child)
+						} else {
+							attached, err = false, nil
+						}
 					}
 					must(err)
 					if err := atree.VerifyArray(parr, addr, testutils.NewSimpleTypeInfo(40), testutils.CompareTypeInfo, testutils.GetHashInput, true); err != nil {
@@ -155,9 +223,16 @@ func cmdAttach(a Args) {
 					must(err)
 					want = append(want, 77)
 				}
+				if !attached {
+					// metering: what the storage reports for the uncommitted slabs is what gets written
+					if what, detail := nfMeteredVsWritten(pst); what != "" {
+						fail(what, detail)
+						return
+					}
+				}
 				must(pst.FastCommit(2))
-				if sched < 4 {
-					ledgers = append(ledgers, base)
+				if sched < 5 && attached {
+					ledgers = append(ledgers, base) // schedule 4: same final ledger as without the fault
 				}
 				// the ledger holds exactly what is reachable from the parent
 				st2 := newStorage(base.Clone())
@@ -166,13 +241,28 @@ func cmdAttach(a Args) {
 						fail("C03: register cannot be loaded", err.Error())
 					}
 				}
-				if _, err := atree.CheckStorageHealth(st2, 1); err != nil {
+				nRoots := 1
+				if !attached {
+					nRoots = 2
+				}
+				if _, err := atree.CheckStorageHealth(st2, nRoots); err != nil {
 					fail("C09: after attaching a committed stand-alone container the ledger holds a slab that is not reachable from the parent (or a reference dangles)", err.Error())
 					return
 				}
 				// content after reopen
 				var cv atree.Value
-				if parentIsMap {
+				if !attached {
+					var err error
+					if childIsMap {
+						cv, err = atree.NewMapWithRootID(st2, childID, atree.NewDefaultDigesterBuilder())
+					} else {
+						cv, err = atree.NewArrayWithRootID(st2, childID)
+					}
+					if err != nil {
+						fail("C08: the child that stayed stand-alone after the failed attach cannot be reopened", err.Error())
+						return
+					}
+				} else if parentIsMap {
 					p2, err := atree.NewMapWithRootID(st2, pmap.SlabID(), atree.NewDefaultDigesterBuilder())
 					if err != nil {
 						fail("C03: parent cannot be reopened", err.Error())
